@@ -260,6 +260,7 @@ def run(P, R, tier):
     errview_rule(P, R)
     growbail_rule(P, R)
     usedump_rule(P, R)
+    immediate_rule(P, R)
     strparam_rule(P, R)
     gfwout_rule(P, R)
     mixfind_rule(P, R)
@@ -2099,6 +2100,21 @@ def nulltests(cond):
                     out.add(_norm40(a))
     return out
 
+THEN_NULL = []
+
+
+def _is_null_equality(c):
+    c = T.strip_casts(c)
+    while T.is_node(c) and c[0] == "Paren":
+        c = T.strip_casts(c[2])
+    if T.is_node(c) and c[0] == "Bin" and c[2] == "==":
+        for b in (c[3], c[4]):
+            b = T.strip_casts(b)
+            if T.is_node(b) and b[0] == "Lit" and str(b[3]) == "0":
+                return True
+    return False
+
+
 def governing(node, target, acc):
     """conditions that govern `target` inside `node`: the conditions of enclosing if / loop statements, of the statement it sits in,
     and of the if statements that precede it in an enclosing statement list (the report-and-continue idiom)"""
@@ -2114,9 +2130,12 @@ def governing(node, target, acc):
                         acc.append(prev[2])
                 return True
         return False
-    for ch in node[2:]:
+    for ci, ch in enumerate(node[2:]):
         if isinstance(ch, list) and governing_any(ch, target, acc):
-            if node[0] in ("If", "While") :
+            if node[0] == "If" and ci == 1 and _is_null_equality(node[2]):
+                # the target sits in the branch where the pointer IS null: that test guards nothing (callers may look at THEN_NULL)
+                THEN_NULL.append(node[2])
+            elif node[0] in ("If", "While", "Cond"):
                 acc.append(node[2])
             elif node[0] == "For" and T.is_node(node[3]):
                 acc.append(node[3])
@@ -2464,3 +2483,49 @@ def strparam_rule(P, R):
                                 file=f["file"], line=c[1], function=f["q"])
     if n_inst < 1:
         R.anchor_missing(RULE, "stringexpr(char*) / stringfactor(char*) with a strcpy not found")
+
+
+IMMEDIATE_EXEMPT = {
+    # function:member -> why the member cannot be NULL there
+    "PBasic::cmdrestore:dataline": "assigned two lines above from mustfindline(), which ends in `Undefined line n` instead of returning NULL under the same "
+                                   "phreeqci_gui / parse_whole_program conditions as the dereference",
+}
+
+
+def immediate_rule(P, R):
+    """A BASIC statement without a line number is executed at once while the program is compiled: stmtline is NULL, and linebase /
+    dataline are NULL when nothing numbered precedes it.  Every dereference of these three members in PBasic is governed by a null test
+    of the member: its own condition (also of a ?: expression), an enclosing if / loop condition, or an `if` that precedes it in an
+    enclosing statement list."""
+    RULE = "C08.immediate"
+    R.rule(RULE, "PBasic: stmtline / linebase / dataline are null-tested before they are dereferenced (statements without a line number)", minimum=30)
+    n_inst = 0
+    for k, g in sorted(P.functions.items(), key=lambda kv: kv[1]["q"]):
+        if not g["q"].startswith("PBasic::"):
+            continue
+        for y in T.walk(g["body"]):
+            if not (y[0] == "Member" and T.is_node(y[3])):
+                continue
+            b = T.strip_casts(y[3])
+            if not (T.is_node(b) and b[0] == "Member" and b[2].split("::")[-1] in ("stmtline", "linebase", "dataline") and T.is_node(b[3]) and b[3][0] == "This"):
+                continue
+            m = b[2].split("::")[-1]
+            n_inst += 1
+            inst = "%s@%d:%s" % (g["q"].split("::")[-1], y[1] - g["line"], m)
+            acc = []
+            governing(g["body"], y, acc)
+            tested = set()
+            for c in acc:
+                tested |= nulltests(c)
+                for u in T.walk(c):
+                    if u[0] == "Un" and u[2] == "!" :
+                        tested.add(_norm40(u[3]))
+            if any(t.split(".")[-1] == m or t == m for t in tested):
+                R.ok(RULE, inst, "%s null-tested in a condition that governs line %d" % (m, y[1]))
+            elif "%s:%s" % (g["q"], m) in IMMEDIATE_EXEMPT:
+                R.ok(RULE, inst, "exempt: " + IMMEDIATE_EXEMPT["%s:%s" % (g["q"], m)])
+            else:
+                R.violation(RULE, inst, "`%s->%s` at line %d has no null test of %s governing it: a statement without a line number runs with %s == NULL and crashes here"
+                            % (m, y[2].split("::")[-1], y[1], m, m), file=g["file"], line=y[1], function=g["q"])
+    if n_inst < 30:
+        R.anchor_missing(RULE, "only %d dereferences of stmtline / linebase / dataline in PBasic (36 confirmed)" % n_inst)
